@@ -61,6 +61,7 @@ class SDict(dict[K, V]):
     def __init__(
         self,
         arg: Mapping[K, V],
+        /,
         **kwargs: V,
     ) -> None:
         pass
@@ -69,6 +70,7 @@ class SDict(dict[K, V]):
     def __init__(
         self,
         arg: Iterable[tuple[K, V]],
+        /,
         **kwargs: V,
     ) -> None:
         pass
@@ -77,6 +79,7 @@ class SDict(dict[K, V]):
     def __init__(
         self,
         arg: str | os.PathLike[str],
+        /,
         **kwargs: V,
     ) -> None:
         pass
@@ -84,6 +87,7 @@ class SDict(dict[K, V]):
     def __init__(
         self,
         arg: Mapping[K, V] | Iterable[tuple[K, V]] | str | os.PathLike[str] | None = None,
+        /,
         **kwargs: V,
     ) -> None:
         source_file: str | os.PathLike[str] | None = None
@@ -422,6 +426,7 @@ class SDict(dict[K, V]):
     def update(
         self,
         m: Mapping[K, V],
+        /,
         **kwargs: V,
     ) -> None:
         pass
@@ -430,6 +435,7 @@ class SDict(dict[K, V]):
     def update(
         self,
         m: Iterable[tuple[K, V]],
+        /,
         **kwargs: V,
     ) -> None:
         pass
@@ -444,6 +450,7 @@ class SDict(dict[K, V]):
     def update(
         self,
         m: Mapping[K, V] | Iterable[tuple[K, V]] | None = None,
+        /,
         **kwargs: V,
     ) -> None:
         """Update top-level keys with the keys from the passed in dict.
@@ -481,6 +488,7 @@ class SDict(dict[K, V]):
     def _post_update(
         self,
         m: Mapping[K, V] | Iterable[tuple[K, V]] | None = None,
+        /,
         **kwargs: V,  # noqa: ARG002
     ) -> None:
         # update attributes
